@@ -65,16 +65,26 @@ def judge(ctx, cases):
             continue
         if "h" in case:
             h = case["h"][:b["pos"]]
-            if b["kind"] == "history-dependent":
+            api = b["api"]
+            if b["kind"] == "history-dependent" and b["pred"] and b["pred"][0] == "createkey":
+                # as-implemented reading computed by the registry model: the create key of an interface member is looked up
+                # by short name among the types registered so far (one root cause, one known entry)
+                api, locus = "(all entry points)", "as-implemented|createkey-lookup"
+            elif b["kind"] == "history-dependent":
                 locus = "history|%s|%s" % (b["t"], pred_str(b["pred"]))
             else:
                 locus = "inverse|%s" % b["t"]
-            recs.append({"api": b["api"], "kind": b["kind"], "locus": locus, "witness": {"history": h, "mode": b["api"]},
+            recs.append({"api": api, "kind": b["kind"], "locus": locus, "witness": {"history": h, "mode": b["api"]},
                          "case": {"h": h, "mode": b["api"]}, "detail": {"m": b["m"], "pred": b["pred"]}})
         else:
             kinds = "+".join(sorted({f["k"] + ("=" + f["v"] if f["v"] != "n" else "") for f in case.get("f", [])})) or (case.get("top", "") + "=" + case.get("v", ""))
             culprit = classify_rt(case, b["m"])
-            recs.append({"api": b["api"], "kind": b["kind"], "locus": ("alias|" if b["kind"] == "aliased" else "inverse|") + culprit, "witness": kinds,
+            api, locus = b["api"], ("alias|" if b["kind"] == "aliased" else "inverse|") + culprit
+            cls = b.get("t", "-")
+            if b["kind"] == "not-inverse" and cls not in ("-", "shape") and not (cls == "named-scalar" and "(ptr)" in api):
+                # classified by the trace specification (TraceRecompose.Class) as an as-implemented reading: keyed by root cause
+                api, locus = "(round trip)", "as-implemented|" + cls
+            recs.append({"api": api, "kind": b["kind"], "locus": locus, "witness": kinds + " via " + b["api"],
                          "case": {"f": case.get("f", []), "top": case.get("top", ""), "v": case.get("v", ""), "api": case["api"]},
                          "detail": {"m": b["m"]}})
     return recs
